@@ -89,6 +89,20 @@ def model_value(model, e):
     return str(v)
 
 
+def preferred_model(ex, pref, viol, fallback, limit=400, budget_s=120):
+    """a model of the violation that also satisfies a preference (one constraint, or an iterable of candidate constraints tried in
+    order: the first satisfiable one wins); the violation itself has already been decided `sat` - this only picks the witness"""
+    cands = [pref] if isinstance(pref, z3.ExprRef) else pref
+    t0 = time.time()
+    for i, c in enumerate(cands):
+        if i >= limit or time.time() - t0 > budget_s:
+            break
+        q = c if viol is None else z3.And(viol, c)
+        if ex.check_once(q, 10000) == z3.sat:
+            return ex.solver.model()
+    return fallback
+
+
 def decide(check, crate, oid, setup, post, replay=None, rb=None, unwind=8, enums=None, models=None, allow_panic=None,
            max_cex=1, timeout_ms=30000, min_paths=1, note=None, known_predicates=None, budget_s=600, describe=None, merge=None, prefer=None, need_reach=None):
     """One obligation.
@@ -145,9 +159,7 @@ def decide(check, crate, oid, setup, post, replay=None, rb=None, unwind=8, enums
                 if r == z3.sat:
                     m = ex.solver.model()
                     if prefer is not None:  # a smaller / replayable witness of the same path, if one exists
-                        pc = prefer(inputs)
-                        if ex.check(pc) == z3.sat:
-                            m = ex.solver.model()
+                        m = preferred_model(ex, prefer(inputs), None, m)
                     cex.append(dict(label="panic: " + str(o.msg), inputs=cex_inputs(m)))
                 elif r == z3.unknown:
                     status = "inconclusive"
@@ -169,8 +181,7 @@ def decide(check, crate, oid, setup, post, replay=None, rb=None, unwind=8, enums
                 if r == z3.sat:
                     m = ex.solver.model()
                     if prefer is not None:
-                        if ex.check(z3.And(z3.Not(p), prefer(inputs))) == z3.sat:
-                            m = ex.solver.model()
+                        m = preferred_model(ex, prefer(inputs), z3.Not(p), m)
                     cex.append(dict(label=label, inputs=cex_inputs(m)))
                 elif r == z3.unknown:
                     status = "inconclusive"
